@@ -118,8 +118,27 @@ func pySizeSuffix(mods ...*gopygen.PyModule) string {
 		}
 	}
 	for _, m := range mods {
+		if m.TrailIndent != "" {
+			return "@case-with-module-ending-in-bare-indentation-without-newline"
+		}
+	}
+	for _, m := range mods {
+		if m.LongLine {
+			return "@case-with-line-of-64KiB-or-more"
+		}
+	}
+	for _, m := range mods {
 		if m.CRLF {
 			return "@case-with-CRLF-module"
+		}
+	}
+	return ""
+}
+
+func goFileSuffix(files ...*gopygen.GoFile) string {
+	for _, f := range files {
+		if f.GeneratedLine > 0 {
+			return "@case-with-code-generated-line-below-the-package-clause"
 		}
 	}
 	return ""
@@ -655,7 +674,7 @@ func (c *gpChecker) goImports(f *gopygen.GoFile, imports []GPImport) {
 
 // CheckGoContainer checks the per-file model of one Go file.
 func CheckGoContainer(f *gopygen.GoFile, got *GPContainer) ([]GPMismatch, *GPStats) {
-	c := &gpChecker{st: newGPStats()}
+	c := &gpChecker{st: newGPStats(), suffix: goFileSuffix(f)}
 	c.goFile(f, gpGoViewOfContainer(got), false)
 	c.goImports(f, got.Imports)
 	// identifier members: a type name at most once
@@ -687,7 +706,7 @@ func goTypeNames(f *gopygen.GoFile) []string {
 
 // CheckGoFlat checks the flattened model (CommonAnalysis result / godeps.json) of a directory of Go files.
 func CheckGoFlat(where string, files []*gopygen.GoFile, ds []GPDataStruct) ([]GPMismatch, *GPStats) {
-	c := &gpChecker{where: where, st: newGPStats()}
+	c := &gpChecker{where: where, st: newGPStats(), suffix: goFileSuffix(files...)}
 	v := gpGoViewOfFlat(ds)
 	// the same name may be declared in several files of the scan (different directories): the flattened model
 	// has to carry every declaration, each with its own members
